@@ -5,6 +5,7 @@ import (
 	"go/constant"
 	"go/token"
 	"go/types"
+	"regexp"
 	"strconv"
 	"strings"
 
@@ -147,6 +148,8 @@ type enc struct {
 	axUsed  map[string]bool
 	shapes  *shapeDB
 	wfSeen  map[string]bool
+	resultTerms []modelVar
+	finder  bool
 }
 
 func newEnc(w *World, ss *SpecSet, fn *ssa.Function) *enc {
@@ -424,7 +427,7 @@ func (e *enc) useSlice(t Term, sort string) {
 		e.wfSeen = map[string]bool{}
 	}
 	k := sort + "|" + t
-	if e.wfSeen[k] || strings.Contains(t, "q_") {
+	if e.wfSeen[k] || boundVarRe.MatchString(t) {
 		return
 	}
 	e.wfSeen[k] = true
@@ -591,6 +594,8 @@ func copyMem(m map[string]Term) map[string]Term {
 	}
 	return o
 }
+
+var boundVarRe = regexp.MustCompile(`(^|[^A-Za-z0-9_])(a|q|wf|sq|ex)_[A-Za-z0-9_]+`)
 
 func isValueTerm(z Term) bool {
 	return !strings.Contains(z, "zero_") && !strings.Contains(z, "zarr") && !strings.Contains(z, "zval_") && !strings.Contains(z, "zopq")
